@@ -20,7 +20,11 @@ META = {
             "fragment (expr_x_compile_correct / vexpr_x_compile_correct: decimals, flags with in / not in, shifts, ~, signed bitwise "
             "operations, state-variable leaves; real legacy IR and real Venom blocks compared syntactically with the verified "
             "compilers' output on a fixed operator table + random expressions every run, a subset executed on pyrevm against the "
-            "Coq meaning). The real compiler is tied to it per generated program: every "
+            "Coq meaning). The pure value-level builtins (as_wei_value, min/max, abs, floor/ceil, isqrt, uint256_addmod/mulmod, "
+            "pow_mod256, unsafe_add/sub/mul/div, shift, uint2str, len, empty, extract32, slice, concat, keccak256/sha256 via an oracle "
+            "table, method_id) have a source-level meaning in coq/C01/VyBuiltin.v written from the documentation with exact-or-revert "
+            "laws (PropsBuiltin.v), executed against every configuration on boundary-biased runtime arguments, so a change made "
+            "identically in both code generators is still caught. The real compiler is tied to it per generated program: every "
             "configuration's bytecode is executed on pyrevm and status/return data/logs/final storage are compared with "
             "the semantics' prediction computed by vm_compute. Partial: the compiler is not proved correct; coverage of "
             "the compiler is per generated program.",
@@ -299,6 +303,11 @@ def run(ctx):
         n_tie += c01_exprx.part_expr_x(ctx)  # larger expression fragment, both front ends (expr_x_ / vexpr_x_compile_correct)
     except Exception as ex:  # noqa  (fail closed: an exception in the additional part is a violation, the other parts still run)
         ctx.violation("gate", "the larger-fragment expression part (c01_exprx) raised", {"exception": f"{type(ex).__name__}: {ex}"[:600]})
+    try:
+        from vlib import c01_builtins
+        n_tie += c01_builtins.part_builtins(ctx)  # pure value-level builtins: VyBuiltin.v (docs meaning) vs every configuration on pyrevm
+    except Exception as ex:  # noqa  (fail closed, the other parts still run)
+        ctx.violation("gate", "the builtin part (c01_builtins) raised", {"exception": f"{type(ex).__name__}: {ex}"[:600]})
     cfgs = configs(ctx.tier)
     n = 24 if ctx.tier == "quick" else 240
     items, stats = differential(ctx, n, cfgs)
@@ -312,7 +321,8 @@ def run(ctx):
                         "distinct (program, calldata) pairs x configurations")
     ctx.corr["features_outside_fragment"] = ["modules", "raw_call/create and the other environment builtins", "abi_encode/decode",
                                              "external calls other than to the scripted callee", "@nonreentrant", "tuples",
-                                             "HashMap with Bytes/String keys", "sqrt/isqrt/uint256_addmod etc."]
+                                             "HashMap with Bytes/String keys", "math.sqrt (decimal), ecrecover/ecadd/ecmul, blockhash/blobhash",
+                                             "convert() involving bytesM/Bytes (C04's subject)"]
     for it in items[:3]:
         c = it["calls"][0] if it["calls"] else None
         if c is not None:
@@ -335,3 +345,5 @@ def prebuild(ctx):
     c01l_stmt.prebuild(ctx)
     from vlib import c01_exprx
     c01_exprx.prebuild(ctx)
+    from vlib import c01_builtins
+    c01_builtins.prebuild(ctx)
